@@ -82,7 +82,8 @@ func init() {
 	}
 	big := fmt.Sprintf(`{"a":[%s],"b":[%s],"t":["12:00:00","13:00:00"],"z":"12:00:00+01"}`, strings.Join(a, ","), strings.Join(b, ","))
 	for _, pd := range [][2]string{{`strict $[1 to 2]`, `[1,2,3]`}, {`strict $[2 to last]`, `[1,2,3]`}, {`strict $.a[1 to $.n]`, `{"a":[1,2,3],"n":2}`}, {`strict $ ? (@[1 to 2] > 0)`, `[1,2,3]`},
-		{`strict $[1 to 2, 0 to 1]`, `[1,2,3]`}, {`$[1 to $.x]`, `[1,2,3]`}, {`strict $[$[0] to $[1]]`, `[1,2,3]`}, {`strict $[last - 1 to last].type()`, `[1,2,3]`}} {
+		{`strict $[1 to 2, 0 to 1]`, `[1,2,3]`}, {`$[1 to $.x]`, `[1,2,3]`}, {`strict $[$[0] to $[1]]`, `[1,2,3]`}, {`strict $[last - 1 to last].type()`, `[1,2,3]`},
+		{`$.**{3}.double()`, `[[["1"]],2]`}, {`$.**{2 to 3}.a`, `[[{"a":1},[{"a":2}]],3,[4]]`}, {`strict $.**{2}.type()`, `{"a":{"b":1},"c":2,"d":{"e":3}}`}, {`$.**{3 to last} ? (@ > 0)`, `[[[1,[2]]],0,[[3]]]`}} {
 		c20Pool = append(c20Pool, struct{ p, d string }{pd[0], pd[1]})
 	}
 	for _, p := range []string{`$.a[*] == $.b[*]`, `$ ? (@.a[*] == @.b[*])`, `($.a[*] > $.b[*]) is unknown`, `strict $.a[*] == $.b[*]`, `$.a[*] == $.b[*] || $.a[0] == 0`,
